@@ -123,7 +123,14 @@ func (i Info) AppendHash(dst []byte, h hash.Hash) []byte {
 	}
 
 	// Hash forms
-	for _, infoForm := range i.Form {
+	forms := make([]form.Data, len(i.Form))
+	copy(forms, i.Form)
+	sort.SliceStable(forms, func(a, b int) bool {
+		typeA, _ := forms[a].GetString("FORM_TYPE")
+		typeB, _ := forms[b].GetString("FORM_TYPE")
+		return typeA < typeB
+	})
+	for _, infoForm := range forms {
 		var formType string
 		fields := make([]string, 0, infoForm.Len())
 		infoForm.ForFields(func(f form.FieldData) {
